@@ -456,3 +456,13 @@ def const_name(t):
     if t[0] == 'const':
         return t[1].split('::')[-1]
     return None
+
+
+_check_before_errflow = check
+
+
+def check(ctx):
+    _check_before_errflow(ctx)
+    # C09.7 error discipline: no error of a fallible call is turned into "absent / false / default" outside the reviewed table
+    from .. import errflow
+    errflow.check(ctx, 'C09.7', ['src/extension/signature/signature_impl.rs', 'src/extension/signature/signature_metadata.rs'], 'signature family')
